@@ -11,7 +11,7 @@ use vcore::{prop_search, Outcome, Run, Search};
 use wire::*;
 use wtransport::Connection;
 
-const RULE: &str = "case = role x runtime flavour x target frame in {SETTINGS on the control stream, GREASE frame after SETTINGS, request HEADERS (wtransport server), response HEADERS (wtransport client), GREASE frame before the response, close capsule on the established session stream, unknown capsule before the close capsule} x 1..3 cut positions inside the target (table: every single position of every target) x events injected between the pieces in {none, datagram of the session, datagram of a foreign session, WebTransport uni stream, GREASE uni stream, WebTransport bidi stream, bytes on the QPACK encoder stream, several}. Metamorphic oracle: the outcome (session established, kept alive, termination value, close code seen by the raw peer) equals that of the same script delivered in one piece with nothing in between (re-executed as twin whenever the perturbed run deviates), and the injected healthy traffic is itself delivered. Non-trivial: a worker loop iteration and a partially-progressed control-plane read future drop were observed between two pieces (hook counters; coverage only) or the cut falls on a field boundary with an event in between; distinct = distinct case";
+const RULE: &str = "case = role x runtime flavour x target frame in {control-stream type byte + SETTINGS, GREASE frame after SETTINGS, request HEADERS (wtransport server), response HEADERS (wtransport client), GREASE frame before the response, close capsule on the established session stream, unknown capsule before the close capsule} x 1..3 cut positions inside the target (table: every single position of every target) x events injected between the pieces in {none, datagram of the session, datagram of a foreign session, WebTransport uni stream, GREASE uni stream, WebTransport bidi stream, bytes on the QPACK encoder stream, the session request itself (new bidi stream with the CONNECT HEADERS, while the control stream's type byte + SETTINGS are still incomplete), several}. Metamorphic oracle: the outcome (session established, kept alive, termination value, close code seen by the raw peer) equals that of the same script delivered in one piece with nothing in between (re-executed as twin whenever the perturbed run deviates), and the injected healthy traffic is itself delivered. Non-trivial: a worker loop iteration and a partially-progressed control-plane read future drop were observed between two pieces (hook counters; coverage only) or the cut falls on a field boundary with an event in between; distinct = distinct case";
 
 #[derive(Clone, Copy, Debug, Serialize, Deserialize, PartialEq, Eq, Hash)]
 pub enum Target {
@@ -32,6 +32,9 @@ pub enum Event {
     UniGrease,
     BidiWt,
     QpackBytes,
+    /// the session request itself (new bidi stream with the CONNECT HEADERS) is sent here instead
+    /// of after the target; only meaningful while the peer's SETTINGS are still incomplete
+    Request,
 }
 
 #[derive(Clone, Debug, Serialize, Deserialize)]
@@ -60,7 +63,7 @@ fn target_strategy() -> impl Strategy<Value = Target> {
 }
 
 fn event_strategy() -> impl Strategy<Value = Event> {
-    prop_oneof![3 => Just(Event::DatagramOwn), 1 => Just(Event::DatagramForeign), 2 => Just(Event::UniWt), 1 => Just(Event::UniGrease), 2 => Just(Event::BidiWt), 1 => Just(Event::QpackBytes)]
+    prop_oneof![3 => Just(Event::DatagramOwn), 1 => Just(Event::DatagramForeign), 2 => Just(Event::UniWt), 1 => Just(Event::UniGrease), 2 => Just(Event::BidiWt), 1 => Just(Event::QpackBytes), 2 => Just(Event::Request)]
 }
 
 pub fn case_strategy() -> impl Strategy<Value = Case> {
@@ -79,7 +82,12 @@ pub fn case_strategy() -> impl Strategy<Value = Case> {
 /// Bytes of the target frame(s) for this case and the stream they travel on.
 fn target_bytes(case: &Case, authority: &str) -> Vec<u8> {
     match case.target {
-        Target::Settings => refcodec::enc_frame(refcodec::registry::FRAME_SETTINGS, &refcodec::enc_settings(&default_settings())),
+        // the control stream's type byte followed by the SETTINGS frame
+        Target::Settings => {
+            let mut b = refcodec::enc_varint(refcodec::registry::STREAM_CONTROL);
+            b.extend(refcodec::enc_frame(refcodec::registry::FRAME_SETTINGS, &refcodec::enc_settings(&default_settings())));
+            b
+        }
         Target::GreaseAfterSettings => refcodec::enc_frame(refcodec::grease(5), b"grease payload 0123456789"),
         Target::RequestHeaders => headers_frame(&{
             let mut f = connect_request_fields(authority, "/c05/some/longer/path?with=query");
@@ -120,6 +128,9 @@ struct Raw {
     qpack: Option<quinn::SendStream>,
     held: Vec<Box<dyn std::any::Any + Send>>,
     injected: Injected,
+    /// request stream and request bytes not sent yet (raw client role only)
+    rs: Option<quinn::SendStream>,
+    request: Option<Vec<u8>>,
 }
 
 impl Raw {
@@ -162,6 +173,11 @@ impl Raw {
                         self.injected.wt_bi += 1;
                     }
                     self.held.push(Box::new((s, r)));
+                }
+            }
+            Event::Request => {
+                if let (Some(rs), Some(b)) = (self.rs.as_mut(), self.request.take()) {
+                    let _ = rs.write_all(&b).await;
                 }
             }
             Event::QpackBytes => {
@@ -298,19 +314,25 @@ async fn run_script(case: Arc<Case>, perturb: bool) -> Result<Out, String> {
         let case2 = case.clone();
         let script = async {
             let (ep, conn) = raw_connect(addr, &t).await?;
-            let mut raw = Raw { conn: conn.clone(), qpack: None, held: vec![], injected: Injected::default() };
+            let mut raw = Raw { conn: conn.clone(), qpack: None, held: vec![], injected: Injected::default(), rs: None, request: None };
             let mut hazard = false;
             // reserve stream 0 for the CONNECT request before any injected bidi stream takes it
-            let (mut rs, mut rr) = conn.open_bi().await.map_err(|e| e.to_string())?;
+            let (rs0, mut rr) = conn.open_bi().await.map_err(|e| e.to_string())?;
             let mut control = conn.open_uni().await.map_err(|e| e.to_string())?;
-            control.write_all(&refcodec::enc_varint(refcodec::registry::STREAM_CONTROL)).await.map_err(|e| e.to_string())?;
             let settings = refcodec::enc_frame(refcodec::registry::FRAME_SETTINGS, &refcodec::enc_settings(&default_settings()));
             if case2.target == Target::Settings {
+                // the request may be injected between the pieces of the control-stream opening
+                raw.rs = Some(rs0);
+                raw.request = Some(headers_frame(&connect_request_fields(&authority, "/")));
                 let b = target_bytes(&case2, &authority);
                 raw.write_perturbed(&mut control, &b, &case2, session, perturb, &mut hazard).await?;
             } else {
+                raw.rs = Some(rs0);
+                control.write_all(&refcodec::enc_varint(refcodec::registry::STREAM_CONTROL)).await.map_err(|e| e.to_string())?;
                 control.write_all(&settings).await.map_err(|e| e.to_string())?;
             }
+            let mut rs = raw.rs.take().expect("request stream");
+            let request_sent = case2.target == Target::Settings && raw.request.take().is_none();
             if case2.target == Target::GreaseAfterSettings {
                 let b = target_bytes(&case2, &authority);
                 raw.write_perturbed(&mut control, &b, &case2, session, perturb, &mut hazard).await?;
@@ -318,7 +340,7 @@ async fn run_script(case: Arc<Case>, perturb: bool) -> Result<Out, String> {
             if case2.target == Target::RequestHeaders {
                 let b = target_bytes(&case2, &authority);
                 raw.write_perturbed(&mut rs, &b, &case2, session, perturb, &mut hazard).await?;
-            } else {
+            } else if !request_sent {
                 rs.write_all(&headers_frame(&connect_request_fields(&authority, "/"))).await.map_err(|e| e.to_string())?;
             }
             let mut buf = Vec::new();
@@ -355,14 +377,15 @@ async fn run_script(case: Arc<Case>, perturb: bool) -> Result<Out, String> {
         let serve = async {
             let incoming = tokio::time::timeout(Duration::from_secs(5), raw_ep.accept()).await.map_err(|_| "no incoming")?.ok_or("closed")?;
             let conn = incoming.await.map_err(|e| e.to_string())?;
-            let mut raw = Raw { conn: conn.clone(), qpack: None, held: vec![], injected: Injected::default() };
+            let mut raw = Raw { conn: conn.clone(), qpack: None, held: vec![], injected: Injected::default(), rs: None, request: None };
             let mut hazard = false;
             let mut control = conn.open_uni().await.map_err(|e| e.to_string())?;
-            control.write_all(&refcodec::enc_varint(refcodec::registry::STREAM_CONTROL)).await.map_err(|e| e.to_string())?;
             let settings = refcodec::enc_frame(refcodec::registry::FRAME_SETTINGS, &refcodec::enc_settings(&default_settings()));
             if case2.target == Target::Settings {
-                raw.write_perturbed(&mut control, &settings, &case2, session, perturb, &mut hazard).await?;
+                let b = target_bytes(&case2, "");
+                raw.write_perturbed(&mut control, &b, &case2, session, perturb, &mut hazard).await?;
             } else {
+                control.write_all(&refcodec::enc_varint(refcodec::registry::STREAM_CONTROL)).await.map_err(|e| e.to_string())?;
                 control.write_all(&settings).await.map_err(|e| e.to_string())?;
             }
             if case2.target == Target::GreaseAfterSettings {
@@ -545,6 +568,10 @@ pub fn run(run: &Run) {
             // selector that maps onto position p
             let sel = (((p - 1) as u64 * 65536 + 65535) / (n as u64 - 1).max(1)).min(65535) as u16;
             table.push(Case { flavor: (p % 3) as u8, wt_is_server, target, cuts: vec![sel], events: vec![vec![if p % 2 == 0 { Event::DatagramOwn } else { Event::UniWt }]], code: 77, reason: "bye".into() });
+            if target == Target::Settings && wt_is_server {
+                // the session request arrives while the peer's SETTINGS are incomplete
+                table.push(Case { flavor: ((p + 1) % 3) as u8, wt_is_server, target, cuts: vec![sel], events: vec![vec![Event::Request]], code: 77, reason: "bye".into() });
+            }
             p += step;
         }
     }
